@@ -3,12 +3,18 @@
 Case line (see /verif/ocaml/drv_notifier.ml for the exact grammar):
   hist T0  NM {thr ivl once close accg allow deny}  NN {name {rx4}*NM}  NP {cluster nameidx}  NS {step}
   step = r dt pair status | g dt cluster n idx*n (n = -1: reply channel closed) | c dt n {cluster m idx*m}
+       | s dt n cluster*n (a refresh cycle whose storage requests time out; n = -1: already the cluster-list request)
 A history is kept as a dict:
   {"kind", "t0", "mods": [{"thr","iv","once","close","accg","allow","deny"}], "names": [str],
    "pairs": [(cluster, nameidx)], "steps": [step]}
   step = (dt_ns, pair, status)                                  an evaluator response
        | (dt_ns, "g", 0, cluster, [nameidx] | None)             processConsumerList(cluster, list); None = closed reply channel
        | (dt_ns, "c", 0, [(cluster, [nameidx] | None)])         a whole refresh cycle (cluster list, then one group list per cluster)
+       | (dt_ns, "s", 0, [cluster] | None)                      a refresh cycle through the real sendClusterRequest whose storage
+                                                                requests are not taken within TimeoutSendStorageRequest's second
+                                                                (real time): None = the cluster-list request (nothing happens);
+                                                                a list = the cluster list is answered, every group-list request
+                                                                times out (only the cluster entries are updated)
 Nothing is registered implicitly: cluster entries and group records exist only through "c" / "g" steps (a legacy line
 whose steps are bare triples is read as: one refresh cycle listing every pair, then the responses).
 """
@@ -64,6 +70,8 @@ def fmt_step(st):
         return ["r", str(st[0]), str(st[1]), str(st[2])]
     if st[1] == "g":
         return ["g", str(st[0]), str(st[3])] + _fmt_list(st[4])
+    if st[1] == "s":
+        return ["s", str(st[0])] + _fmt_list(st[3])
     out = ["c", str(st[0]), str(len(st[3]))]
     for cl, gs in st[3]:
         out += [str(cl)] + _fmt_list(gs)
@@ -131,6 +139,9 @@ def parse(line):
         elif k == "c":
             dt = int(nx())
             h["steps"].append((dt, "c", 0, [(int(nx()), glist()) for _ in range(int(nx()))]))
+        elif k == "s":
+            dt = int(nx())
+            h["steps"].append((dt, "s", 0, glist()))
         else:
             legacy = True
             h["steps"].append((int(k), int(nx()), int(nx())))
@@ -184,6 +195,10 @@ class Listing:
         before = set(self.listed)
         if st[1] == "g":
             self.group_list(st[3], st[4])
+        elif st[1] == "s":
+            if st[3] is not None:       # the cluster list arrived, no group list did
+                self.listed = {k for k in self.listed if k[0] in st[3] and k[0] in self.known}
+                self.known = set(st[3])
         else:
             cs = [cl for cl, _ in st[3]]
             self.listed = {k for k in self.listed if k[0] in cs and k[0] in self.known}
@@ -590,6 +605,70 @@ def refresh_witnesses():
     return out
 
 
+def has_stall(h):
+    return any((not is_resp(st)) and st[1] == "s" for st in h["steps"])
+
+
+def stall_cost(h):
+    """Real seconds the probe spends in the stalled refreshes of a history (TimeoutSendStorageRequest waits 1 s per request)."""
+    return sum((1 if st[3] is None else max(1, len(set(st[3])))) + 0.3
+               for st in h["steps"] if (not is_resp(st)) and st[1] == "s")
+
+
+def add_stalls(rng, h, budget=3):
+    """Inserts one or two stalled refreshes (step "s") - preferably while an incident is open - each followed most of the
+    time by a normal refresh cycle that lists every pair again (the sequence a storage hiccup produces)."""
+    clusters = sorted({c for c, _ in h["pairs"]})
+    info = analyse(h)
+    open_keys, open_after = set(), []
+    for st in info:
+        if st["kind"] == "r":
+            if st["inc"] is not None and not st["closing"]:
+                open_keys.add(st["key"])
+            elif st["closing"]:
+                open_keys.discard(st["key"])
+        else:
+            open_keys -= set(st["removed"])
+        open_after.append(bool(open_keys))
+    inside = [i + 1 for i, o in enumerate(open_after) if o]
+    anywhere = list(range(1, len(h["steps"]) + 1))
+    steps = list(h["steps"])
+    spent = 0
+    for _ in range(rng.choice([1, 1, 2])):
+        r = rng.random()
+        if r < 0.45:
+            what = None
+        elif r < 0.9:
+            what = list(clusters)
+        else:
+            what = [c for c in clusters if c != rng.choice(clusters)] or list(clusters)   # the cluster list drops a cluster
+        cost = 1 if what is None else max(1, len(set(what)))
+        if spent + cost > budget:
+            break
+        spent += cost
+        pos = rng.choice(inside) if inside and rng.random() < 0.8 else rng.choice(anywhere)
+        ins = [(rng.choice([0, 0, SEC, 61 * SEC]), "s", 0, what)]
+        if rng.random() < 0.7:
+            ins.append(register_all(h["pairs"], rng.choice([0, SEC])))
+        steps[pos:pos] = ins
+        inside = [i + len(ins) if i >= pos else i for i in inside]
+        anywhere = list(range(1, len(steps) + 1))
+    return dict(h, steps=steps)
+
+
+def stall_witnesses():
+    """The storage hiccup in the middle of an announced incident: ERR (announced), a refresh whose storage request times
+    out, a normal refresh, ERR again, OK - for a send-once module and for a send-interval module, for both requests."""
+    out = []
+    for what in (None, [1]):
+        for m in ({"thr": 2, "iv": 0, "once": True, "close": True}, {"thr": 2, "iv": 60, "once": False, "close": True}):
+            mod = dict(m, accg=True, allow="-", deny="-")
+            pairs = [(1, 0)]
+            out.append({"kind": KIND, "t0": T0, "mods": [mod], "names": ["q"], "pairs": pairs,
+                        "steps": [register_all(pairs), (SEC, 0, 3), (SEC, "s", 0, what), register_all(pairs, SEC), (SEC, 0, 3), (SEC, 0, 1)]})
+    return out
+
+
 def _shorter(gs):
     return [] if gs is None else [gs[:i] + gs[i + 1:] for i in range(len(gs))]
 
@@ -620,6 +699,8 @@ def deletions(h):
         if st[1] == "g":
             for gs in _shorter(st[4]):
                 out.append(dict(h, steps=h["steps"][:i] + [(st[0], "g", 0, st[3], gs)] + h["steps"][i + 1:]))
+        elif st[1] == "s":
+            pass
         else:
             for j, (cl, gs) in enumerate(st[3]):
                 if len(st[3]) > 1:
@@ -633,10 +714,53 @@ def deletions(h):
 # shared body of the C13 / C14 check modules
 # ---------------------------------------------------------------------------------------------
 
+def run_impl_parallel(chk, hs, name, procs=12):
+    """Runs the implementation on histories with stalled refreshes (real seconds each) in several probe processes at once
+    (one process runs its histories one after the other: viper and the virtual clock are process-wide)."""
+    import os
+    from concurrent.futures import ThreadPoolExecutor
+    import common as C
+    import framework
+    binp, err = C.build_probe("notifier")
+    if binp is None:
+        raise framework.ProbeBroken("probe notifier does not compile against the tree:\n%s" % (err or "")[-3000:])
+    procs = max(1, min(procs, len(hs)))
+    order = sorted(range(len(hs)), key=lambda i: -stall_cost(hs[i]))
+    chunks, load = [[] for _ in range(procs)], [0.0] * procs
+    for i in order:                       # longest first onto the least loaded process
+        j = load.index(min(load))
+        chunks[j].append(i)
+        load[j] += stall_cost(hs[i]) + 0.01
+
+    def one(j):
+        cpath = os.path.join(chk.work, "%s.%d.txt" % (name, j))
+        opath = os.path.join(chk.work, "%s.%d.impl" % (name, j))
+        with open(cpath, "w") as f:
+            for i in chunks[j]:
+                f.write(fmt(hs[i]) + "\n")
+        if os.path.exists(opath):
+            os.remove(opath)
+        rc, out = C.run_probe(binp, "TestVerifProbeNotifier", cpath, opath, timeout=900)
+        lines = open(opath).read().splitlines() if os.path.exists(opath) else []
+        return rc, out, lines
+    with ThreadPoolExecutor(max_workers=procs) as ex:
+        results = list(ex.map(one, range(procs)))
+    res = [None] * len(hs)
+    for j, (rc, out, lines) in enumerate(results):
+        if rc != 0 or len(lines) != len(chunks[j]):
+            bad = chunks[j][len(lines)] if len(lines) < len(chunks[j]) else None
+            raise framework.ProbeCrashed(rc, out, len(lines), fmt(hs[bad]) if bad is not None else None)
+        for i, ln in zip(chunks[j], lines):
+            res[i] = ln
+    return res
+
+
 def run_impl(chk, hs, name):
     """Runs only the implementation (probe) on histories; returns output lines."""
     import os
     import common as C
+    if any(has_stall(h) for h in hs):
+        return run_impl_parallel(chk, hs, name)
     binp, err = C.build_probe("notifier")
     if binp is None:
         raise C.BuildError("notifier probe does not build: %s" % (err or "")[-2000:])
@@ -692,6 +816,9 @@ def describe(h):
         else:
             if st["kind"] == "g":
                 what = "group list for c%d: %s" % (raw[3], gl(raw[4]))
+            elif st["kind"] == "s":
+                what = ("refresh cycle, the cluster-list request times out (storage does not take it within 1 s)" if raw[3] is None else
+                        "refresh cycle, cluster list [%s] answered, every group-list request times out" % ",".join("c%d" % c for c in raw[3]))
             else:
                 what = "refresh cycle: clusters [%s]" % ", ".join("c%d: %s" % (cl, gl(gs)) for cl, gs in raw[3])
             eff = []
@@ -722,7 +849,10 @@ def count_refreshes(chk, h):
                 chk.count("result:for-a-group-off-the-list")
             continue
         nref += 1
-        chk.count("refresh:kind=%s" % ("group-list" if st["kind"] == "g" else "cycle"))
+        chk.count("refresh:kind=%s" % {"g": "group-list", "c": "cycle", "s": "cycle-with-timed-out-storage-request"}[st["kind"]])
+        if st["kind"] == "s":
+            chk.count("stalled-refresh:%s%s" % ("cluster-list-request" if raw[3] is None else "group-list-requests",
+                                                ",inside-an-open-incident" if st["kept_open"] else ""))
         if st["kind"] == "g":
             gs = raw[4]
             chk.count("refresh:list=%s" % ("closed-channel" if gs is None else "empty" if not gs else "dup" if len(set(gs)) < len(gs) else "plain"))
@@ -752,7 +882,7 @@ def count_refreshes(chk, h):
         chk.count("incident-opened-after-relisting")
 
 
-def check_body(chk, failed, pid, oracle, focus_weights, n_quick, n_thorough, corr_name):
+def check_body(chk, failed, pid, oracle, focus_weights, n_quick, n_thorough, corr_name, n_stall_quick=36, n_stall_thorough=400):
     import common as C
     n = n_thorough if chk.thorough else n_quick
     hs, tags = [], []
@@ -773,6 +903,26 @@ def check_body(chk, failed, pid, oracle, focus_weights, n_quick, n_thorough, cor
         tags.append(tg)
     cases = [fmt(h) for h in hs]
     impl, model, mism = chk.differential("notifier", "notifier", "TestVerifProbeNotifier", cases, name="hist")
+
+    # histories with refreshes whose storage request times out (real seconds each): few, run in parallel probe processes
+    hs_s, tags_s = [], []
+    for h in stall_witnesses():
+        hs_s.append(h)
+        tags_s.append(["stall-witness", "-", "-", "-"])
+    for i in range(n_stall_thorough if chk.thorough else n_stall_quick):
+        h, tg = gen_history(chk.rng, i, chk.rng.choice(focus_weights))
+        hs_s.append(add_stalls(chk.rng, h))
+        tags_s.append(tg)
+    if hs_s:
+        cases_s = [fmt(h) for h in hs_s]
+        impl_s = run_impl_parallel(chk, hs_s, "stall")
+        model_s = chk.run_model("notifier", cases_s, name="stall")
+        off = len(hs)
+        mism += [(off + i, c, a, b) for i, (c, a, b) in enumerate(zip(cases_s, impl_s, model_s)) if a != b]
+        chk.evaluations += len(cases_s)
+        chk.traces_validated += len(cases_s)
+        chk.count("histories-with-a-timed-out-storage-request", len(hs_s))
+        hs, tags, cases, impl, model = hs + hs_s, tags + tags_s, cases + cases_s, impl + impl_s, model + model_s
 
     for h, c, tg in zip(hs, cases, tags):
         inc = incidents_per_pair(h)
